@@ -21,6 +21,9 @@ type routeRow struct {
 	Target []string // FuncName / interface-method names; reaching any one of them suffices
 }
 
+// extReached, when non-nil, additionally collects the out-of-module functions referenced during funcsReached.
+var extReached map[string]bool
+
 // funcsReached collects the in-module functions referenced from e, following bodies of in-module functions that are not
 // themselves targets, up to the given depth.
 func funcsReached(c *Ctx, info *types.Info, e ast.Node, depth int, stop map[string]bool, out map[string]bool, seen map[*types.Func]bool) {
@@ -35,7 +38,13 @@ func funcsReached(c *Ctx, info *types.Info, e ast.Node, depth int, stop map[stri
 			return true
 		}
 		fn, ok := info.Uses[id].(*types.Func)
-		if !ok || fn.Pkg() == nil || !inModule(fn.Pkg().Path()) {
+		if !ok || fn.Pkg() == nil {
+			return true
+		}
+		if !inModule(fn.Pkg().Path()) {
+			if extReached != nil {
+				extReached[calleeName(fn)] = true
+			}
 			return true
 		}
 		fn = fn.Origin()
@@ -277,7 +286,15 @@ func classifyMiddleware(c *Ctx, info *types.Info, a ast.Expr) (why, bad string) 
 			why = "chi middleware reviewed as not touching the request path: " + fn.Name()
 		case inModule(p):
 			out := map[string]bool{}
+			extReached = map[string]bool{}
 			funcsReached(c, info, a, 3, map[string]bool{}, out, map[*types.Func]bool{})
+			ext := extReached
+			extReached = nil
+			for _, en := range sortedKeysB(ext) {
+				if !middlewareExtAllow[en] {
+					return "", "in-module middleware reaches " + en + ", which is not on the reviewed list of library calls a middleware of the provider may make (a call that rewrites the request - its path, query or form - before the handler parses it changes what the handler sees)"
+				}
+			}
 			names := make([]string, 0, len(out))
 			for nme := range out {
 				names = append(names, nme)
@@ -296,6 +313,22 @@ func classifyMiddleware(c *Ctx, info *types.Info, a ast.Expr) (why, bad string) 
 		}
 	}
 	return why, ""
+}
+
+// library functions the provider's own middleware (intercept / IssuerInterceptor) uses today, reviewed: none of them
+// rewrites the request URL, query or form.
+var middlewareExtAllow = map[string]bool{
+	"(*net/http.Request).Context": true, "(*net/http.Request).WithContext": true, "(net/http.Handler).ServeHTTP": true, "net/http.Handler.ServeHTTP": true,
+	"net/http.HandlerFunc": true, "(net/http.HandlerFunc).ServeHTTP": true, "context.WithValue": true,
+}
+
+func sortedKeysB(m map[string]bool) []string {
+	ks := make([]string, 0, len(m))
+	for k := range m {
+		ks = append(ks, k)
+	}
+	sort.Strings(ks)
+	return ks
 }
 
 // chi middlewares read in the module cache (v5) and found neither to rewrite r.URL nor to answer for a path themselves.
@@ -327,7 +360,7 @@ func urlWrite(fi *FuncInfo) string {
 		for _, l := range as.Lhs {
 			if sel, ok := unparen(l).(*ast.SelectorExpr); ok {
 				switch sel.Sel.Name {
-				case "Path", "RawPath", "RequestURI", "URL":
+				case "Path", "RawPath", "RequestURI", "URL", "RawQuery", "Form", "PostForm":
 					found = types.ExprString(l)
 				}
 			}
@@ -540,5 +573,165 @@ func RunIssuerCoverage(c *Ctx, rule string, exempt []string) {
 			c.R.Find(Finding{Rule: rule, Func: ls.Name, Construct: "issuer middleware handed to RegisterServer", Pos: c.P.Position(pos),
 				Msg: "op.RegisterLegacyServer no longer hands middleware leading to the IssuerInterceptor to op.RegisterServer: every LegacyServer handler would run with an empty issuer in the context"})
 		}
+	}
+}
+
+// RunFieldSources: every value written to pkg.typ.field (assignment through a selector or a keyed field of a composite
+// literal of that type) is either a parameter of the enclosing declaration (a value the application supplies through an
+// option / constructor argument) or - possibly through one local variable - a composite literal &wantLit{...}.
+// Used for defaults that must not silently become something else (a verifier key set defaulted to another key set).
+func RunFieldSources(c *Ctx, rule, pkg, typ, field, wantLit, why string) {
+	n := 0
+	for _, fi := range c.P.Funcs {
+		if fi.Body == nil || fi.Ctl || fi.Lit != nil {
+			continue
+		}
+		if shortPkg(fi.Pkg.PkgPath) != pkg {
+			continue
+		}
+		info := fi.Pkg.TypesInfo
+		isTyp := func(t types.Type) bool {
+			nt, _ := derefType(t).(*types.Named)
+			return nt != nil && nt.Obj().Name() == typ && nt.Obj().Pkg() != nil && shortPkg(nt.Obj().Pkg().Path()) == pkg
+		}
+		var classify func(e ast.Expr, depth int) string
+		classify = func(e ast.Expr, depth int) string {
+			e = unparen(e)
+			if u, ok := e.(*ast.UnaryExpr); ok && u.Op == token.AND {
+				if cl, ok := unparen(u.X).(*ast.CompositeLit); ok {
+					if nt, _ := derefType(info.TypeOf(cl)).(*types.Named); nt != nil && nt.Obj().Name() == wantLit {
+						return "literal &" + wantLit
+					}
+				}
+			}
+			if id, ok := e.(*ast.Ident); ok {
+				v, _ := info.Uses[id].(*types.Var)
+				if v == nil {
+					return ""
+				}
+				if isParamVar(c, v) {
+					return "parameter " + v.Name()
+				}
+				if depth > 0 {
+					// single local definition
+					var rhs ast.Expr
+					cnt := 0
+					ast.Inspect(fi.Body, func(m ast.Node) bool {
+						if as, ok := m.(*ast.AssignStmt); ok && len(as.Lhs) == len(as.Rhs) {
+							for i, l := range as.Lhs {
+								if lid, ok := unparen(l).(*ast.Ident); ok && (info.Defs[lid] == v || info.Uses[lid] == v) {
+									rhs = as.Rhs[i]
+									cnt++
+								}
+							}
+						}
+						return true
+					})
+					if cnt == 1 {
+						return classify(rhs, depth-1)
+					}
+				}
+			}
+			return ""
+		}
+		report := func(pos token.Pos, rhs ast.Expr) {
+			n++
+			how := classify(rhs, 2)
+			construct := "value of " + typ + "." + field
+			for _, name := range c.attributed(fi) {
+				c.R.Obl(Obligation{Rule: rule, Func: name, Construct: construct, Pos: c.P.Position(pos), Discharged: how != "", Nontrivial: true, How: []string{how}})
+				if how == "" {
+					c.R.Find(Finding{Rule: rule, Func: name, Construct: construct + " from " + types.ExprString(rhs), Pos: c.P.Position(pos),
+						Msg: fmt.Sprintf("%s.%s.%s is set to `%s`, which is neither a value supplied by the application (a parameter) nor a fresh &%s{...}: %s", pkg, typ, field, types.ExprString(rhs), wantLit, why)})
+				}
+			}
+		}
+		ast.Inspect(fi.Body, func(nd ast.Node) bool {
+			switch s := nd.(type) {
+			case *ast.AssignStmt:
+				if len(s.Lhs) != len(s.Rhs) {
+					return true
+				}
+				for i, l := range s.Lhs {
+					sel, ok := unparen(l).(*ast.SelectorExpr)
+					if !ok || sel.Sel.Name != field {
+						continue
+					}
+					if sl, has := info.Selections[sel]; has && sl.Kind() == types.FieldVal && isTyp(sl.Recv()) {
+						report(sel.Pos(), s.Rhs[i])
+					}
+				}
+			case *ast.CompositeLit:
+				if t := info.TypeOf(s); t != nil && isTyp(t) {
+					for _, el := range s.Elts {
+						if kv, ok := el.(*ast.KeyValueExpr); ok {
+							if k, ok := kv.Key.(*ast.Ident); ok && k.Name == field {
+								report(kv.Pos(), kv.Value)
+							}
+						}
+					}
+				}
+			}
+			return true
+		})
+	}
+	if n == 0 {
+		c.R.Fail("vacuity", "-", rule, "no write to "+pkg+"."+typ+"."+field+" found: re-point the rule")
+	}
+}
+
+// RunFieldSetOnlyIn: pkg.typ.field is set (selector assignment or keyed field of a composite literal) only inside the
+// listed functions (helpers introduced later count for their callers).
+func RunFieldSetOnlyIn(c *Ctx, rule, pkg, typ, field string, allowed []string, why string) {
+	n := 0
+	for _, fi := range c.P.Funcs {
+		if fi.Body == nil || fi.Ctl || fi.Lit != nil {
+			continue
+		}
+		info := fi.Pkg.TypesInfo
+		isTyp := func(t types.Type) bool {
+			nt, _ := derefType(t).(*types.Named)
+			return nt != nil && nt.Obj().Name() == typ && nt.Obj().Pkg() != nil && shortPkg(nt.Obj().Pkg().Path()) == pkg
+		}
+		report := func(pos token.Pos, what string) {
+			n++
+			// the innermost literal decides attribution (an option literal is attributed to its declaration)
+			for _, name := range c.attributed(fi) {
+				good := contains(allowed, name)
+				c.R.Obl(Obligation{Rule: rule, Func: name, Construct: what + " " + typ + "." + field, Pos: c.P.Position(pos), Discharged: good, Nontrivial: true})
+				if !good {
+					c.R.Find(Finding{Rule: rule, Func: name, Construct: what + " " + typ + "." + field, Pos: c.P.Position(pos),
+						Msg: fmt.Sprintf("%s.%s.%s is set in %s, outside the reviewed places (%s): %s", pkg, typ, field, name, strings.Join(allowed, ", "), why)})
+				}
+			}
+		}
+		ast.Inspect(fi.Body, func(nd ast.Node) bool {
+			switch s := nd.(type) {
+			case *ast.AssignStmt:
+				for _, l := range s.Lhs {
+					sel, ok := unparen(l).(*ast.SelectorExpr)
+					if !ok || sel.Sel.Name != field {
+						continue
+					}
+					if sl, has := info.Selections[sel]; has && sl.Kind() == types.FieldVal && isTyp(sl.Recv()) {
+						report(sel.Pos(), "assignment to")
+					}
+				}
+			case *ast.CompositeLit:
+				if t := info.TypeOf(s); t != nil && isTyp(t) {
+					for _, el := range s.Elts {
+						if kv, ok := el.(*ast.KeyValueExpr); ok {
+							if k, ok := kv.Key.(*ast.Ident); ok && k.Name == field {
+								report(kv.Pos(), "literal sets")
+							}
+						}
+					}
+				}
+			}
+			return true
+		})
+	}
+	if n == 0 {
+		c.R.Fail("vacuity", "-", rule, "no place sets "+pkg+"."+typ+"."+field+": re-point the rule")
 	}
 }
